@@ -8,8 +8,15 @@ open Kv Footprint
     that may race for the step the harness ran; `agree` = everything observed is covered by the prediction. -/
 namespace Drv.C20
 
+/-- "op.IssuerFromHost#1" ↦ ("op.IssuerFromHost", 1) -/
+def valOf (s : String) : String × Nat :=
+  match s.splitOn "#" with
+  | [m, k] => (m, k.toNat?.getD 0)
+  | _ => (s, 0)
+
 def instOf (l : Line) (p : String) : Inst :=
-  { id := nat l (p ++ "id"), ty := str l (p ++ "ty"), entry := str l (p ++ "entry"), opts := list l (p ++ "opts") }
+  { id := nat l (p ++ "id"), ty := str l (p ++ "ty"), entry := str l (p ++ "entry"), opts := list l (p ++ "opts"),
+    vals := (list l (p ++ "vals")).map valOf }
 
 def stepOf (l : Line) : Step :=
   let i := instOf l "inst."
@@ -76,7 +83,8 @@ def step (l : Line) : String :=
     let observed := o.globalsChanged ++ o.suppliedChanged
     let unexplained := observed.filter fun n => !cells.any fun p => covers p n
     -- another instance / later behaviour can only change through a shared cell
-    let indirect := (!o.othersChanged.isEmpty || !o.behaviourChanged.isEmpty) && cells.isEmpty && !(st.inst.ty == "rp.remoteKeySet")
+    let indirect := (!o.othersChanged.isEmpty || !o.behaviourChanged.isEmpty || !o.instanceBehaviourChanged.isEmpty) && cells.isEmpty &&
+      !(st.inst.ty == "rp.remoteKeySet")
     let ok := unexplained.isEmpty && !indirect
     pre ++ (if cells.isEmpty then "" else "+maywrite") ++ " model=" ++ esc (join cells) ++ post ++ " agree=" ++ (if ok then "1" else "0")
 
